@@ -65,30 +65,29 @@ def signature(v: dict) -> str:
 
 
 def _child_run_batch(check, jobs, out_path, run_timeout):
-    """jobs: list of (index, seed | None, replay_choices | None, keep_log)"""
+    """jobs: list of (index, seed | None, replay_choices | None, keep_log, extra).  Results are appended to
+    out_path one JSON line per run as soon as each run ends, so a run that hangs (and gets the worker
+    killed by its alarm) only loses itself."""
     faulthandler.enable()
-    results = []
-    for (idx, seed, replay, keep_log, extra) in jobs:
-        signal.alarm(int(run_timeout))
-        t0 = time.perf_counter()
-        try:
-            ch = Choices(seed=seed, replay=replay)
-            r = check.run_one(ch, keep_log=keep_log, **(extra or {}))
-            r["choices_len"] = len(ch.record)
-            if r.get("violations") or keep_log:
-                r["choices"] = ch.record
-            r["overrun"] = ch.overrun
-        except BaseException as e:  # noqa: BLE001
-            r = {"harness_error": f"{type(e).__name__}: {e}", "traceback": traceback.format_exc()}
-        signal.alarm(0)
-        r["index"] = idx
-        r["seed"] = seed
-        r["wall"] = time.perf_counter() - t0
-        results.append(r)
-    tmp = out_path + ".tmp"
-    with open(tmp, "w") as f:
-        json.dump(results, f, default=_json_default)
-    os.replace(tmp, out_path)
+    with open(out_path, "w") as f:
+        for (idx, seed, replay, keep_log, extra) in jobs:
+            signal.alarm(int(run_timeout))
+            t0 = time.perf_counter()
+            try:
+                ch = Choices(seed=seed, replay=replay)
+                r = check.run_one(ch, keep_log=keep_log, **(extra or {}))
+                r["choices_len"] = len(ch.record)
+                if r.get("violations") or keep_log:
+                    r["choices"] = ch.record
+                r["overrun"] = ch.overrun
+            except BaseException as e:  # noqa: BLE001
+                r = {"harness_error": f"{type(e).__name__}: {e}", "traceback": traceback.format_exc()}
+            signal.alarm(0)
+            r["index"] = idx
+            r["seed"] = seed
+            r["wall"] = time.perf_counter() - t0
+            f.write(json.dumps(r, default=_json_default) + "\n")
+            f.flush()
 
 
 def _json_default(o):
@@ -108,6 +107,7 @@ class Pool:
         self.run_timeout = run_timeout
         self.scratch = _scratch()
         self.inflight = {}  # pid -> (out_path, jobs, started)
+        self.requeue = []  # jobs of a batch whose worker died before reaching them
         self.seq = 0
 
     def submit(self, jobs):
@@ -147,20 +147,24 @@ class Pool:
             if pid in self.inflight:
                 break
         out, jobs, _ = self.inflight.pop(pid)
-        res = None
+        res = []
         if os.path.exists(out):
             try:
                 with open(out) as f:
-                    res = json.load(f)
+                    for line in f:
+                        if line.endswith("\n"):
+                            res.append(json.loads(line))
             except Exception:  # noqa: BLE001
-                res = None
+                pass
             os.unlink(out)
-        if res is None:
+        if len(res) < len(jobs):
             why = f"child died (status {status})"
             if os.WIFSIGNALED(status) and os.WTERMSIG(status) == signal.SIGALRM:
                 why = f"run exceeded the wall timeout of {self.run_timeout}s"
-            # a batch died: report each of its runs as a harness error
-            res = [{"index": j[0], "seed": j[1], "harness_error": why, "wall": 0.0} for j in jobs]
+            # the run that was in progress is a harness error; the ones behind it were never started
+            j = jobs[len(res)]
+            res.append({"index": j[0], "seed": j[1], "harness_error": why, "wall": 0.0})
+            self.requeue.extend(jobs[len(res):])
         return res
 
     def drain(self):
@@ -389,7 +393,9 @@ def run_check(check, tier="quick", seed=None, budget_s=None, njobs=None, max_run
             if now > t_start + 1.5 * budget_s + 30:
                 break
             batch = []
-            for _ in range(runs_per_fork):
+            while pool.requeue and len(batch) < runs_per_fork:
+                batch.append(pool.requeue.pop(0))
+            for _ in range(runs_per_fork - len(batch)):
                 if pending_vec:
                     vi, vec = pending_vec.pop(0)
                     batch.append((idx, derive_seed(seed, check.name, "vec", vi), None, False, {"vector": vec}))
@@ -404,6 +410,9 @@ def run_check(check, tier="quick", seed=None, budget_s=None, njobs=None, max_run
                 absorb(pool.reap(True))
             pool.submit(batch)
         absorb(pool.drain())
+        while pool.requeue:
+            pool.submit([pool.requeue.pop(0)])
+            absorb(pool.drain())
     finally:
         pool.close()
 
@@ -525,7 +534,7 @@ def run_check(check, tier="quick", seed=None, budget_s=None, njobs=None, max_run
     print(f"  faults fired: {coverage['fault_counts']}")
     print(f"  probes: {coverage['probe_counts']}")
     for e in agg["harness_errors"][:5]:
-        print(f"HARNESS-ERROR: {e.get('harness_error')} (seed={e.get('seed')})")
+        print(f"HARNESS-ERROR: {e.get('harness_error')} (index={e.get('index')} seed={e.get('seed')})")
         if e.get("traceback"):
             print(e["traceback"])
     for ln in lines:
